@@ -568,3 +568,55 @@ def check_vector_guards(run, f, rule='R9'):
         _report(run, rule + '.' + kind, f, st, comps, acc - empty, mixed, want_by_target[kind] - empty, what)
         n += 1
     return n
+
+
+# --------------------------------------------------------------------------- per-iteration flags
+def check_flag_resets(run, f, rule='R9.reset'):
+    """A latch (flag / pointer set to a constant or to the inner loop variable inside an INNER loop) that is read in the enclosing
+    OUTER loop must be re-initialised unconditionally in every iteration of the outer loop; if it is only initialised before
+    the outer loop, the value latched while processing one observable leaks into the next.  Accumulators (variables that
+    are also updated from their own value, e.g. trace = trace/2) are carried on purpose and are not latches."""
+    from ..flow import assigned_pairs
+    stmts = list(walk(f.node))
+    n = 0
+    outer_loops = [st for st, ctx in stmts if isinstance(st, ast.For) and not ctx.loops]
+    for L in outer_loops:
+        inner_vars = {l.target.id for l in ast.walk(L) if isinstance(l, ast.For) and l is not L and isinstance(l.target, ast.Name)}
+        latch_sets, selfref = {}, set()
+        for st, ctx in stmts:
+            if L not in ctx.loops or not isinstance(st, (ast.Assign, ast.AugAssign)):
+                continue
+            if isinstance(st, ast.AugAssign):
+                if isinstance(st.target, ast.Name):
+                    selfref.add(st.target.id)
+                continue
+            for t, v in assigned_pairs(st):
+                if not isinstance(t, ast.Name) or isinstance(v, tuple):
+                    continue
+                if any(isinstance(x, ast.Name) and x.id == t.id for x in ast.walk(v)):
+                    selfref.add(t.id)
+                    continue
+                const_like = isinstance(v, ast.Constant) or (isinstance(v, ast.Name) and v.id in inner_vars)
+                deeper = len(ctx.loops) > ctx.loops.index(L) + 1
+                if const_like and deeper:
+                    latch_sets.setdefault(t.id, []).append(st)
+        for v, sets in sorted(latch_sets.items()):
+            if v in selfref:
+                continue
+            loads = [x for x in ast.walk(L) if isinstance(x, ast.Name) and x.id == v and isinstance(x.ctx, ast.Load)]
+            if not loads:
+                continue
+            resets = []
+            for st, ctx in stmts:
+                if isinstance(st, ast.Assign) and ctx.loops and ctx.loops[-1] is L \
+                        and not [c for c in ctx.conds if getattr(c[0], 'lineno', 0) > L.lineno]:
+                    for t, val in assigned_pairs(st):
+                        if isinstance(t, ast.Name) and t.id == v and not isinstance(val, tuple) and isinstance(val, ast.Constant):
+                            resets.append(st)
+            first = min(s2.lineno for s2 in sets)
+            n += 1
+            ok = any(r.lineno < first for r in resets)
+            run.check(ok, rule, f, '%s inside `for %s`' % (v, norm(L.target)),
+                      '`%s` is latched inside an inner loop while one item of the loop over `%s` is processed and read in that loop, but it is not '
+                      'reset at the start of every iteration: the value left by one observable leaks into the next' % (v, norm(L.target)))
+    return n
